@@ -937,6 +937,7 @@ restore_ownership (void *data)
     {
       _dbus_assert (d->hash_entry != NULL);
       bus_service_relink (d->service, d->hash_entry);
+      d->hash_entry = NULL;
     }
   /* else the service is still in the hash because it has other owners,
    * and the preallocated entry is freed by free_ownership_restore_data() */
@@ -955,18 +956,15 @@ restore_ownership (void *data)
     }
   
   _dbus_list_insert_before_link (&d->service->owners, link, d->owner_link);
-
-  /* Note that removing then restoring this changes the order in which
-   * ServiceDeleted messages are sent on destruction of the
-   * connection.  This should be OK as the only guarantee there is
-   * that the base service is destroyed last, and we never even
-   * tentatively remove the base service.
-   */
-  bus_connection_add_owned_service_link (d->owner->conn, d->service_link);
-  
-  d->hash_entry = NULL;
-  d->service_link = NULL;
   d->owner_link = NULL;
+
+  /* The queue holds a reference to the owner again (the one dropped by
+   * bus_service_unlink_owner()). Our own reference has kept the owner
+   * alive in the meantime, so it was never removed from its connection's
+   * list of owned services and must not be added to it a second time:
+   * the preallocated service_link is freed by
+   * free_ownership_restore_data(). */
+  bus_owner_ref (d->owner);
 }
 
 static void
